@@ -12,9 +12,9 @@ DEMO=$(ls "$W"/demo_*.py | head -1)
 cd "$W"
 T1=$(PYTHONPATH=$W /venv/bin/python -m pytest -q -p no:cacheprovider --timeout=900 2>&1 | tail -1)
 PYTHONPATH=$W timeout 600 /venv/bin/python "$DEMO" > /dev/null 2>&1; D1=$?
-git stash -q
+git diff > /tmp/try_seed_$ID.patch; git apply -R /tmp/try_seed_$ID.patch
 PYTHONPATH=$W timeout 600 /venv/bin/python "$DEMO" > /dev/null 2>&1; D0=$?
-git stash pop -q
+git apply /tmp/try_seed_$ID.patch; rm -f /tmp/try_seed_$ID.patch
 echo "tests with change: $T1 | demo with change: exit $D1 | demo without: exit $D0"
 RES=""
 for P in "$@"; do
@@ -26,6 +26,6 @@ python3 - "$ID" "$T1" "$D1" "$D0" "$RES" "$@" <<'PY'
 import json,sys
 id_,t1,d1,d0,res=sys.argv[1:6]; props=sys.argv[6:]
 meta={"id":id_,"breaks_property":props[0],"checks_run":props,"tests_with_change":t1,"demo_exit_with_change":int(d1),"demo_exit_without_change":int(d0),
-      "check_results":res.strip(),"needs_to_manifest":"(fill in)","how_confirmed":"tools/try_seed.sh: pytest in the scratch worktree with PYTHONPATH set, demo with and without the change (git stash), ./check with VERIF_REPO=<worktree>"}
+      "check_results":res.strip(),"needs_to_manifest":"(fill in)","how_confirmed":"tools/try_seed.sh: pytest in the scratch worktree with PYTHONPATH set, demo with and without the change (patch reversed), ./check with VERIF_REPO=<worktree>"}
 json.dump(meta,open(f"/verif/seeded/{id_}"+__import__("os").environ.get("SEED_SUFFIX","")+"/meta.json","w"),indent=1)
 PY
